@@ -35,8 +35,9 @@ and `return`.
 * `wellTyped` is the stack typing of the fragment in the style of the Wasm validator (live code only: what
   follows a `return` is not looked at; at the end the results must be on top of the stack).
 
-Not in the fragment: `i32.extend8_s/16_s`, `i64.extend8_s/16_s` (the SSA model `SsaPass` has `SExtend` from 32
-to 64 bits only), floats, memory, globals, calls, control flow, reference types, v128.
+Not in this fragment: `i32.extend8_s/16_s`, `i64.extend8_s/16_s` (the SSA model `SsaPass` has `SExtend` from 32
+to 64 bits only; they are added, by wrapping, in `Wz.Model.FrontendSLX`), floats, memory, globals, calls, control
+flow, reference types, v128.
 On ill-typed input (stack underflow) Go would panic with an index out of range; here the missing value is value 0.
 
 Core Lean only (linked into the `oracle` executable).
